@@ -27,6 +27,8 @@ A program is a dict
        | ["nfail"] | ["nfail",kind]  closes the innermost nested block like ["nout"], but the inner block is LEFT BY AN EXCEPTION (kind as for
                                      "raise": "" | "base" | "falsy" | "falsybase") raised at the end of its body, which the enclosing body
                                      catches right outside the block (`try: async with ...: ...; raise E()` / `except E: pass`) and goes on
+       | ["setm",[[k,v],...]] | ["delm",[k,...]]   `cache.set_many({...})` / `cache.delete_many(...)` inside a transaction (multi-key writes:
+                                     the locks are taken key by key in the given order; transactional tasks only)
        | ["commit"] | ["rollback"]   explicit `await tx.commit()` / `await tx.rollback()` on the `Transaction` object that the innermost
                                      enclosing `async with cache.transaction(...) as tx` returned (the body goes on afterwards)
        | ["gc"]  (environment event, not part of the model: an abandoned call of the decorated function is finalised
@@ -411,6 +413,10 @@ def execute(init: dict, programs: list[dict], schedule: list[int], snapshot=True
                         results.append(await cache.get(key_name(op[1])))
                     elif op[0] == "del":
                         await cache.delete(key_name(op[1]))
+                    elif op[0] == "setm":
+                        await cache.set_many({key_name(k): v for k, v in op[1]})
+                    elif op[0] == "delm":
+                        await cache.delete_many(*[key_name(k) for k in op[1]])
                     elif op[0] == "setx":
                         results.append(1 if await cache.set(key_name(op[1]), op[2], exist=bool(op[3])) else 0)
                     elif op[0] == "expire":
